@@ -3,7 +3,7 @@
 #   demo passes on the unmodified HEAD of /repo, fails with the patch; the related pinned tests still pass with the patch.
 # On success copies it to /verif/seeded/<id>/ and leaves a patched scratch worktree /tmp/sv_<id> for running the checks
 # (remove it afterwards: git -C /repo worktree remove --force /tmp/sv_<id>).
-P=$1; ID=${2:-$P-1}; OUT=/tmp/seedout_$P; WT=/tmp/sv_$ID
+P=$1; ID=${2:-$P-1}; OUT=${SEED_OUT:-/tmp/seedout_$P}; WT=/tmp/sv_$ID
 [ -f $OUT/patch.diff ] || { echo "no patch in $OUT"; exit 2; }
 git -C /repo worktree remove --force $WT 2>/dev/null
 git -C /repo worktree add -q $WT HEAD || exit 2
